@@ -59,6 +59,18 @@ pub fn str_to_ascii_lowercase(s: &str) -> (r: String) ensures r@ == s@.map_value
 pub fn str_to_ascii_uppercase(s: &str) -> (r: String) ensures r@ == s@.map_values(|c: char| upper(c)) { unimplemented!() }
 #[verifier::external_body]
 pub fn string_as_str(s: &String) -> (r: &str) ensures r@ == s@ { unimplemented!() }
+pub open spec fn trim_end(s: Seq<char>, c: char) -> Seq<char>
+    decreases s.len()
+{ if s.len() > 0 && s.last() == c { trim_end(s.drop_last(), c) } else { s } }
+pub open spec fn trim_start(s: Seq<char>, c: char) -> Seq<char>
+    decreases s.len()
+{ if s.len() > 0 && s[0] == c { trim_start(s.subrange(1, s.len() as int), c) } else { s } }
+#[verifier::external_body]
+pub fn str_trim_end_matches(s: &str, c: char) -> (r: &str) ensures r@ == trim_end(s@, c) { unimplemented!() }
+#[verifier::external_body]
+pub fn str_trim_start_matches(s: &str, c: char) -> (r: &str) ensures r@ == trim_start(s@, c) { unimplemented!() }
+#[verifier::external_body]
+pub fn str_all_eq(s: &str, c: char) -> (r: bool) ensures r == (forall|i: int| 0 <= i < s@.len() ==> s@[i] == c) { unimplemented!() }
 // `==` on &str / a string-literal pattern: equal exactly when the character sequences are
 #[verifier::external_body]
 pub fn str_eq(a: &str, b: &str) -> (r: bool) ensures r == (a@ == b@) { unimplemented!() }
@@ -104,16 +116,20 @@ def match_to_if_chain(f):
         if ma:
             if default is not None:
                 raise Undecided("next_keyword_or_ident: a literal arm after the default arm")
-            out.append((ma.group(1), ma.group(2).strip()))
+            out.append((f'str_eq(__m, "{ma.group(1)}")', ma.group(2).strip()))
+            continue
+        mg = re.fullmatch(r"_\s+if\s+(.+?)\s*=>\s*(.+)", a, re.S)
+        if mg and default is None:
+            out.append((mg.group(1).strip(), mg.group(2).strip()))      # `_ if cond => X`: taken exactly when no earlier arm matched and cond holds
             continue
         md = re.fullmatch(r"_\s*=>\s*(.+)", a, re.S)
         if md and default is None:
             default = md.group(1).strip()
             continue
-        raise Undecided(f"next_keyword_or_ident: match arm outside the supported shape (string literal or `_`): {a[:60]!r}")
+        raise Undecided(f"next_keyword_or_ident: match arm outside the supported shape (string literal, `_ if cond` or `_`): {a[:60]!r}")
     if default is None:
         raise Undecided("next_keyword_or_ident: no default arm")
-    chain = "".join(f'if str_eq({var}, "{lit}") {{ {body} }} else ' for lit, body in out) + "{ " + default + " }"
+    chain = "{ let __m: &str = " + var + "; " + "".join(f'if {cond} {{ {body} }} else ' for cond, body in out) + "{ " + default + " } }"
     return f[:m.start()] + chain + f[cb + 1:], len(out)
 
 
@@ -132,11 +148,18 @@ def build(read):
     f, k1u = re.subn(r"\b(\w+)\.is_alphanumeric\(\)", r"char_is_alphanumeric(\1)", f)
     if k1u:
         b.edits.append(f"D5: next_keyword_or_ident: {k1u}x `c.is_alphanumeric()` -> char_is_alphanumeric(c) (assumed std contract: the Unicode property)")
-    f, k2 = re.subn(r"\b(\w+)\.to_string\(\)", r"str_to_string(\1)", f)
+    f, k2 = re.subn(r"(\"(?:[^\"\\]|\\.)*\"|\b\w+)\.to_string\(\)", r"str_to_string(\1)", f)
+    f, k8 = re.subn(r"\b(\w+)\.(?:bytes|chars)\(\)\.all\(\|(\w+)\| \2 == b?('(?:[^'\\]|\\.)')\)", r"str_all_eq(\1, \3)", f)
+    if k8:
+        b.edits.append(f"D5: next_keyword_or_ident: {k8}x `t.bytes()/chars().all(|x| x == 'c')` (c ASCII) -> str_all_eq(t, 'c') (std contract)")
     # case-mapping / view calls a change might introduce: std contracts, so such a change is judged instead of rejected
     f, k3 = re.subn(r"(self\.scanner\.range\([^()]*\)|\b\w+)\.to_ascii_lowercase\(\)", r"str_to_ascii_lowercase(\1)", f)
     f, k4 = re.subn(r"(self\.scanner\.range\([^()]*\)|\b\w+)\.to_ascii_uppercase\(\)", r"str_to_ascii_uppercase(\1)", f)
     f, k5 = re.subn(r"\b(\w+)\.as_str\(\)", r"string_as_str(&\1)", f)
+    f, k6 = re.subn(r"\b(\w+)\.trim_end_matches\(('(?:[^'\\]|\\.)')\)", r"str_trim_end_matches(\1, \2)", f)
+    f, k7 = re.subn(r"\b(\w+)\.trim_start_matches\(('(?:[^'\\]|\\.)')\)", r"str_trim_start_matches(\1, \2)", f)
+    if k6 + k7:
+        b.edits.append(f"D5: next_keyword_or_ident: {k6}x `.trim_end_matches(c)`, {k7}x `.trim_start_matches(c)` -> calls carrying the std contract")
     if k3 + k4 + k5:
         b.edits.append(f"D5: next_keyword_or_ident: {k3}x `.to_ascii_lowercase()`, {k4}x `.to_ascii_uppercase()`, {k5}x `.as_str()` -> calls carrying the std contract")
     b.edits.append(f"D5: next_keyword_or_ident: {k1}x `c.is_ascii_alphanumeric()` -> char_is_ascii_alphanumeric(c), {k2}x `t.to_string()` -> str_to_string(t) (assumed std contracts)")
@@ -146,7 +169,7 @@ def build(read):
         raise Undecided("next_keyword_or_ident: anchor `let end = self.scanner.index;` not found")
     tail, n_arms = match_to_if_chain(tail)
     f = head + sep + tail
-    b.edits.append(f"D5: next_keyword_or_ident: `match t {{ \"lit\" => X, .. _ => Y }}` ({n_arms} literal arms) -> `if str_eq(t, \"lit\") {{ X }} else .. else {{ Y }}` "
+    b.edits.append(f"D5: next_keyword_or_ident: `match t {{ \"lit\" => X, .. _ => Y }}` ({n_arms} literal arms) -> `{{ let __m: &str = t; if str_eq(__m, \"lit\") {{ X }} else .. else {{ Y }} }}` "
                    "(arm by arm, in source order; string-literal patterns are outside Verus)")
     hdr, body = extract.fn_header_body(f)
     kinds = [k for k, _, _ in extract.find_loops(body)]
@@ -161,10 +184,12 @@ def build(read):
                 self.scanner.pos() < self.scanner.text().len() ==> !word_char(self.scanner.text()[self.scanner.pos()]), // [C03_C09_C20:a_word_is_the_maximal_run_of_ascii_letters_digits_and_underscores]
             decreases self.scanner.text().len() - self.scanner.pos(), // [C03:scanning_a_word_terminates]"""}}
     f = extract.annotate_fn(hdr + body, spec=SPEC, attrs="#[verifier::loop_isolation(false)]\n#[verifier::allow_complex_invariants]", loops=loops)
+    # every plain string literal of the function body is revealed (its length and characters), so a comparison with one is decided either way
+    lits = " ".join(f'reveal_strlit("{x}");' for x in sorted(set(re.findall(r'"([A-Za-z0-9_ ]*)"', body))))
     f = extract.rewrite_regex_once(f, r"(let end = self\.scanner\.index;)",
                                    r"\1\n        proof { let t = self.scanner.text(); lemma_idx_of(t, old(self).scanner.pos()); lemma_idx_of(t, self.scanner.pos()); "
                                    r"if old(self).scanner.pos() < self.scanner.pos() { lemma_byte_off_strict(t, old(self).scanner.pos(), self.scanner.pos()); } "
-                                   r"reveal_keywords(); }", "next_keyword_or_ident: proof hint")
+                                   r"reveal_keywords(); " + lits + r" }", "next_keyword_or_ident: proof hint")
     b.text = assemble([
         "// GENERATED on every run by /verif/verus/lex_ident.py from /repo's working tree - do not edit",
         scanner_model(), MODEL2, kw_spec(),
@@ -189,10 +214,12 @@ def replays(failed):
             return None
         return judge
     yield ("every keyword does its own job",
-           "fn f(xs) { for i, x in xs { if x == 2 { continue; } else if x == 4 { break; } print(x); } return null; }\n"
-           "print(f([1, 2, 3, 4, 5]))\nn := 0\nwhile n < 2 { n += 1; }\nprint(n, true, false)\n", exp("1\n3\nnull\n2 true false\n"))
-    yield ("identifiers keep their case", "o := {\"k\": 1, \"K\": 2}\nprint(o.k, o.K)\nAb := 3; aB := 4; print(Ab, aB)\n", exp("1 2\n3 4\n"))
-    yield ("a keyword prefix or suffix is an identifier", "iff := 1; fn_ := 2; truee := 3; nulll := 4; inn := 5; For := 6\nprint(iff, fn_, truee, nulll, inn, For)\n", exp("1 2 3 4 5 6\n"))
-    yield ("digits and underscores continue a word", "a_1b := 7; _x9 := 8; print(a_1b, _x9)\n", exp("7 8\n"))
+           "fn f(xs) {\n for [i, x] in xs {\n if x == 2 { continue; } else if x == 4 { break; }\n print(x);\n }\n return null;\n}\n"
+           "print(f([1, 2, 3, 4, 5]))\nn := 0\nwhile n < 2 { n += 1; }\nprint(n); print(true); print(false)\n", exp("1\n3\n<null>\n2\ntrue\nfalse\n"))
+    yield ("identifiers keep their case", "o := {\"k\": 1, \"K\": 2}\nprint(o.k); print(o.K)\nAb := 3; aB := 4; print(Ab); print(aB)\n", exp("1\n2\n3\n4\n"))
+    yield ("a keyword prefix or suffix is an identifier", "iff := 1; fn_ := 2; truee := 3; nulll := 4; inn := 5; For := 6\nprint(iff + fn_ + truee + nulll + inn + For)\n", exp("21\n"))
+    yield ("digits and underscores continue a word", "a_1b := 7; _x9 := 8; print(a_1b); print(_x9)\n", exp("7\n8\n"))
+    yield ("a name made of underscores only is its own name", "__ := 2; _ := 5; print(__)\n", exp("2\n"))
+    yield ("a keyword followed or preceded by an underscore is an identifier", "break_ := 3; return__ := 4; _if := 5; print(break_ + return__ + _if)\n", exp("12\n"))
     yield ("a non-ASCII letter does not continue a word", "aé := 1\n", exp(err=":1:2:"))
     yield ("a keyword is not a name", "while := 1\n", exp(err=":1:"))
